@@ -1,3 +1,134 @@
-(* C07 — Compaction never changes what a read at or above the compaction revision sees. *)
-From KB Require Import Base.Cases Model.Coder Model.CompactSys Model.C07Cases.
+(* C07 — Compaction never changes what a read at or above the compaction revision sees.
+   Property theorems only: each is closed by `exact <lemma>` and followed by Print Assumptions. *)
+From KB Require Import Base.Cases Model.Coder Model.CompactSys Model.C07Cases
+  Proofs.Coder Proofs.CompactSafe Proofs.CompactPass Proofs.CompactReads.
+From Coq Require Import Sorted.
 Local Open Scope N_scope.
+
+(* removing a version (k,r), r <= R, that has a newer version <= R in the current set - or a tombstone
+   <= R once no older version is left, or an index record, or a record that is not there - does not
+   change what any read at any revision R' >= R sees *)
+Theorem C07_safe_remove : forall R V x, uniq_ver V -> premise R V x -> veq R (del_slot x V) V.
+Proof. exact safe_remove. Qed.
+Print Assumptions C07_safe_remove.
+
+(* one compaction scan over a snapshot of whole keys (sorted, as the engine iterates), for EVERY
+   assignment of outcomes to its engine deletes (Ok / compare failure / other failure / compactor
+   dies, in any positions) and EVERY interleaving of writers' commits above R between two deletes:
+   every delete issued satisfies C07_safe_remove's premise in the store of that moment (ds_safe is
+   premiseb evaluated on the current store), and the store reads at every revision >= R exactly like
+   the ghost store that received the writers' commits and none of the deletes.
+   `good` = no plain version delete was answered with a compare failure (see C07_good_needed). *)
+Theorem C07_pass : forall R V snap oc,
+  scan_ok R V snap oc -> good (scan R V snap oc) ->
+  Forall (fun s => ds_safe s = true) (d_trace (scan R V snap oc)) /\
+  veq R (d_store (scan R V snap oc)) (d_ghost (scan R V snap oc)) /\
+  (forall k r v, In (RVer k r v) V -> In (RVer k r v) (d_ghost (scan R V snap oc))) /\
+  (forall k r v, In (RVer k r v) (d_ghost (scan R V snap oc)) -> In (RVer k r v) V \/ In (RVer k r v) (flat_map fst oc)).
+Proof. exact scan_safe. Qed.
+Print Assumptions C07_pass.
+
+(* without concurrent writers: the reads are those of the store before the pass *)
+Theorem C07_pass_sequential : forall R V snap (os : list outcome),
+  let oc := map (fun o => ([], o)) os in
+  scan_ok R V snap oc -> good (scan R V snap oc) -> veq R (d_store (scan R V snap oc)) V.
+Proof. exact scan_safe_seq. Qed.
+Print Assumptions C07_pass_sequential.
+
+(* the executable reads are functions of `visible`: Get (hence deleted keys do not reappear, live keys
+   do not vanish) and List/Count over any key list agree on stores that read the same from R on *)
+Theorem C07_get_spec : forall V R k r v, uniq_ver V -> (get_at V R k = Some (r, v) <-> visible V R k r v).
+Proof. exact get_at_spec. Qed.
+Print Assumptions C07_get_spec.
+
+Theorem C07_get_unchanged : forall R A B R' k,
+  uniq_ver A -> uniq_ver B -> veq R A B -> R <= R' -> get_at A R' k = get_at B R' k.
+Proof. exact veq_get_at. Qed.
+Print Assumptions C07_get_unchanged.
+
+Theorem C07_list_unchanged : forall R A B R' ks,
+  uniq_ver A -> uniq_ver B -> veq R A B -> R <= R' -> list_keys ks A R' = list_keys ks B R'.
+Proof. exact veq_list_keys. Qed.
+Print Assumptions C07_list_unchanged.
+
+Theorem C07_no_reappear_no_vanish : forall R A B R' k,
+  uniq_ver A -> uniq_ver B -> veq R A B -> R <= R' -> (get_at A R' k = None <-> get_at B R' k = None).
+Proof. exact veq_absent. Qed.
+Print Assumptions C07_no_reappear_no_vanish.
+
+(* ---------- non-vacuity and the hypotheses that are needed ---------- *)
+
+Definition ka : bytes := [97].
+Definition kb : bytes := [98].
+Definition exV : store :=
+  [RIdx ka 103 true; RVer ka 101 [1]; RVer ka 102 [2]; RVer ka 103 tombstone;
+   RIdx kb 105 false; RVer kb 104 [4]; RVer kb 105 [5]].
+(* a writer re-creates ka at 106 just before the third delete, which then fails *)
+Definition exOc : list (list rec * outcome) :=
+  [([], OOk); ([], OOk); ([RIdx ka 106 false; RVer ka 106 [6]], OFailOther)].
+
+Example C07_ex_scan_ok : scan_ok 105 exV exV exOc.
+Proof.
+  split.
+  - split.
+    + repeat (constructor; try (vm_compute; reflexivity)).
+    + intros y Hy. cbn in Hy. repeat (destruct Hy as [<-|Hy]; [discriminate|]). destruct Hy.
+    + intros k r v Hy. cbn in Hy. repeat (destruct Hy as [Hy|Hy]; [try discriminate; injection Hy as <- <- <-; lia|]). destruct Hy.
+  - intros y Hy _. exact Hy.
+  - intros k r v Hy _. exact Hy.
+  - intros k r v v' H1 H2. cbn in H1, H2.
+    repeat match goal with
+           | H : _ \/ _ |- _ => destruct H as [H|H]
+           | H : False |- _ => destruct H
+           | H : RIdx _ _ _ = RVer _ _ _ |- _ => discriminate H
+           end; congruence.
+  - intros k r v Hy. cbn in Hy. repeat (destruct Hy as [Hy|Hy]; [try discriminate; injection Hy as <- <- <-; lia|]). destruct Hy.
+Qed.
+
+Example C07_ex_good : good (scan 105 exV exV exOc).
+Proof.
+  intros s Hs. vm_compute in Hs. repeat (destruct Hs as [<-|Hs]; [intros [H1 H2]; discriminate|]). destruct Hs.
+Qed.
+
+(* the run: index compare-and-delete, version 101, then the delete of 102 fails: 102 and the tombstone stay *)
+Example C07_ex_run :
+  map (fun s => (ds_kind s, ds_target s, ds_out s, ds_safe s)) (rev (d_trace (scan 105 exV exV exOc)))
+  = [(KDelCur, RIdx ka 103 true, OOk, true); (KDel, RVer ka 101 [1], OOk, true); (KDel, RVer ka 102 [2], OFailOther, true);
+     (KDel, RVer kb 104 [4], OOk, true)]
+  /\ get_at (d_store (scan 105 exV exV exOc)) 105 ka = None
+  /\ get_at (d_store (scan 105 exV exV exOc)) 106 ka = Some (106, [6]).
+Proof. vm_compute. repeat split. Qed.
+
+(* `good` is needed: a plain delete answered with a compare failure (not recorded as a failed key by
+   updateSkippedRawKey) lets the pass delete the tombstone over a surviving version: the deleted key
+   reappears (finding C07-F2) *)
+Example C07_good_needed :
+  let os := [OOk; OOk; OFailCond] in
+  get_at exV 105 ka = None /\
+  get_at (d_store (scan 105 exV exV (map (fun o => ([], o)) os))) 105 ka = Some (102, [2]).
+Proof. vm_compute. split; reflexivity. Qed.
+
+(* the tombstone clause of the premise is needed: removing the newest live version changes reads *)
+Example C07_premise_needed :
+  get_at (del_slot (RVer kb 105 [5]) exV) 105 kb <> get_at exV 105 kb.
+Proof. vm_compute. discriminate. Qed.
+
+(* the order of the deletes is load-bearing: deleting the tombstone before the value it shadows is not
+   covered by the premise (an older version is left) and would resurrect the key if the next delete failed *)
+Example C07_order_needed :
+  premiseb 105 exV (RVer ka 103 tombstone) = false /\
+  get_at (del_slot (RVer ka 103 tombstone) exV) 105 ka = Some (102, [2]).
+Proof. vm_compute. split; reflexivity. Qed.
+
+(* compaction borders: nested / duplicated skipped prefixes compact inside a skipped range (finding C07-F1) *)
+Definition P : bytes := [47;114].                        (* "/r" *)
+Definition Ps : bytes := [47;114;47;115].                (* "/r/s" *)
+Definition Pss : bytes := [47;114;47;115;47;116].        (* "/r/s/t" *)
+Example C07_borders_refuted_nested :
+  in_charge P [Ps; Pss] (Pss ++ [47;121]) = false /\
+  existsb (fun lh => in_range (fst lh) (snd lh) (RVer (Pss ++ [47;121]) 1 [])) (ranges_of P [Ps; Pss]) = true.
+Proof. vm_compute. split; reflexivity. Qed.
+Example C07_borders_refuted_duplicate :
+  in_charge P [Ps; Ps] (Ps ++ [47;121]) = false /\
+  existsb (fun lh => in_range (fst lh) (snd lh) (RVer (Ps ++ [47;121]) 1 [])) (ranges_of P [Ps; Ps]) = true.
+Proof. vm_compute. split; reflexivity. Qed.
